@@ -257,6 +257,47 @@ func rulesC17(c *Ctx) {
 	if fn := c.needFn("C17.auth", pkRegApp+".(*Application).registerRuntime"); fn != nil {
 		w := writesOf(fn)
 		c.DominatedByCond("C17.auth", fn, "caller==governing address ∨ InitChain", `^staking/api\.\(Address\)\.Equal\(consensus/cometbft/api\.\(\*Context\)\.CallerAddress\(.*\),\*registry/api\.\(\*Runtime\)\.StakingAddress\(phi\(.*\)\)#0\)$|^consensus/cometbft/api\.\(\*Context\)\.IsInitChain\(.*\)$`, w, "a runtime record changes only with its governing entity or runtime")
+		// the record whose authority is checked (and against which the update is verified) is the stored one,
+		// active or suspended, whenever one exists
+		for _, call := range callsIn(fn) {
+			nm := calleeName(call)
+			var subj ssa.Value
+			what := ""
+			switch nm {
+			case "registry/api.(*Runtime).StakingAddress":
+				// only the call feeding the comparison with the caller's address
+				isAuth := false
+				if v := call.Value(); v != nil && v.Referrers() != nil {
+					for _, r := range *v.Referrers() {
+						if ex, ok := r.(*ssa.Extract); ok && ex.Index == 0 && ex.Referrers() != nil {
+							for _, rr := range *ex.Referrers() {
+								if u, ok := rr.(*ssa.UnOp); ok && u.Referrers() != nil {
+									for _, r3 := range *u.Referrers() {
+										if eq, ok := r3.(ssa.CallInstruction); ok && calleeName(eq) == "staking/api.(Address).Equal" && strings.Contains(vstr(allArgs(eq)[0]), "CallerAddress(") {
+											isAuth = true
+										}
+									}
+								}
+							}
+						}
+					}
+				}
+				if !isAuth {
+					continue
+				}
+				subj, what = allArgs(call)[0], "authority check"
+			case "registry/api.VerifyRuntimeUpdate":
+				subj, what = allArgs(call)[1], "update verification"
+			default:
+				continue
+			}
+			rs := strings.Join(rootStrs(subj), " | ")
+			ok := strings.Contains(rs, ".(*ImmutableState).Runtime(") && strings.Contains(rs, ".(*ImmutableState).SuspendedRuntime(")
+			if what == "authority check" {
+				ok = ok && strings.Contains(rs, "param:rt")
+			}
+			c.Check(ok, "C17.auth", fname(fn)+":"+what+" uses the stored record (active or suspended)", c.P.InstrPos(call), "the runtime consulted comes from state.Runtime or state.SuspendedRuntime (the submitted descriptor only when neither exists)", "the "+what+" of registerRuntime does not consult the stored record of a "+map[bool]string{true: "suspended", false: "registered"}[strings.Contains(rs, ".(*ImmutableState).Runtime(")]+" runtime (provenance: "+rs+"): such a runtime can be re-registered by someone who does not govern it")
+		}
 	}
 	if fn := c.needFn("C17.auth", pkRegApp+".(*Application).deregisterEntity"); fn != nil {
 		for _, call := range CallsTo(fn, "", pkRegState+".(*MutableState).RemoveEntity", "").Calls() {
@@ -270,6 +311,36 @@ func rulesC17(c *Ctx) {
 		// claims mirror records
 		rc := CallsTo(fn, "RemoveStakeClaim", "consensus/cometbft/apps/staking/state.RemoveStakeClaim", "")
 		c.Check(!rc.Empty(), "C17.claims", fname(fn)+":RemoveEntity↔RemoveStakeClaim", c.P.Pos(fn.Pos()), "entity claim removed with the record", "the entity's stake claim is no longer removed when the entity is removed")
+	}
+
+	// ---- (b') node updates keep identity, owner and consensus key, whatever the node's state
+	if fn := c.needFn("C17.update", "registry/api.VerifyNodeUpdate"); fn != nil {
+		for _, f := range []struct{ name, re string }{
+			{"node ID unchanged", `^common/crypto/signature\.\(PublicKey\)\.Equal\(\*param:currentNode\.ID,\*param:newNode\.ID\)$`},
+			{"entity ID unchanged", `^common/crypto/signature\.\(PublicKey\)\.Equal\(\*param:currentNode\.EntityID,\*param:newNode\.EntityID\)$`},
+			{"consensus ID unchanged", `^common/crypto/signature\.\(PublicKey\)\.Equal\(\*param:currentNode\.Consensus\.ID,\*param:newNode\.Consensus\.ID\)$`},
+		} {
+			c.SuccessRequiresCond("C17.update", fn, f.name, f.re, "an update of a registered node (expired or not) cannot move it to another entity or change its identity keys")
+		}
+	}
+	if fn := c.needFn("C17.update", pkRegApp+".(*Application).registerNode"); fn != nil {
+		vu := CallsTo(fn, "VerifyNodeUpdate", "registry/api.VerifyNodeUpdate", "")
+		okV := len(vu.Calls()) == 1
+		if okV {
+			a := allArgs(vu.Calls()[0])
+			okV = strings.Contains(vstr(a[2]), ".Node(") && strings.Contains(vstr(a[3]), "VerifyRegisterNodeArgs(")
+		}
+		c.Check(okV, "C17.update", fname(fn)+":VerifyNodeUpdate(stored node, verified new node)", c.P.Pos(fn.Pos()), "the update is verified against the stored node record", "VerifyNodeUpdate is not applied to (the stored node, the verified new descriptor)")
+		// an existing node is overwritten only after the update was verified
+		if !vu.Empty() {
+			// existingNode is assigned once: after `existingNode != nil` held, its `== nil` edges are infeasible
+			ex := HeldEdges(fn, `^consensus/cometbft/apps/registry/state\.\(\*ImmutableState\)\.Node\(.*\)#0 != nil$`)
+			set := CallsTo(fn, "SetNode", pkRegState+".(*MutableState).SetNode", "")
+			cut, _ := successCut(vu)
+			cut.AddEdges(HeldEdges(fn, `^consensus/cometbft/apps/registry/state\.\(\*ImmutableState\)\.Node\(.*\)#0 == nil$`)...)
+			ok := len(ex) > 0 && !set.Empty() && Reach(fn, nil, ex, anyOf(set.Ins), cut) == nil
+			c.Check(ok, "C17.update", fname(fn)+":existing node⇒SetNode only after VerifyNodeUpdate✓", c.P.Pos(fn.Pos()), "when a node record already exists it is overwritten only after the update was verified", "an existing node record can be overwritten without VerifyNodeUpdate having succeeded")
+		}
 	}
 
 	// ---- (c) claims
